@@ -124,6 +124,15 @@ theorem copy_good (dflt : α) {v : VRing α} (g : Good v) : Good (v.copyAndDrop 
 theorem pushSelf_good {v : VRing α} (g : Good v) : Good v.pushSelf :=
   ⟨g.live, g.over, g.dead, g.read, g.bal, wf_moveHeadOne g.wf, g.cover⟩
 
+theorem assign_good (dflt : α) {v : VRing α} (g : Good v) (m : Nat) : Good (v.assignAndDrop dflt m) := by
+  obtain ⟨_, hd, _, hb, _⟩ := invalidate_good g
+  have hc : (TRing.assign (TRing.mk' dflt m) v.t).buf.length = v.t.buf.length := by simp [TRing.assign]
+  refine ⟨?_, g.over, hd, ?_, ?_, g.wf, ?_⟩
+  · simp only [assignAndDrop]; rw [hc]
+  · simp only [assignAndDrop, g.read, g.live, deadCount_replicate]
+  · simp only [assignAndDrop]; rw [hc]; omega
+  · simp only [assignAndDrop]; rw [hc]; exact g.cover
+
 theorem move_good {v : VRing α} (g : Good v) : Good v.moveAndDrop :=
   ⟨g.live, g.over, g.dead, g.read, g.bal, g.wf, g.cover⟩
 
@@ -144,6 +153,7 @@ theorem VRing.step_good {α : Type} (dflt : α) {v : VRing α} (g : VRing.Good v
   | resize sz => exact ⟨_, rfl, VRing.resize_good dflt g sz hok⟩
   | copy => exact ⟨_, rfl, VRing.copy_good dflt g⟩
   | move => exact ⟨_, rfl, VRing.move_good g⟩
+  | assign m => exact ⟨_, rfl, VRing.assign_good dflt g m⟩
 
 theorem VRing.run_good {α : Type} (dflt : α) : ∀ (ops : List (VOp α)) {v : VRing α}, VRing.Good v →
     (∀ op ∈ ops, op.ok) → ∃ v', VRing.run dflt v ops = some v' ∧ VRing.Good v'
